@@ -48,8 +48,12 @@ from typing import (
 # -----------------------------------------------------------------------------
 from .exceptions import ImplementationMissingError, InvalidConfigError
 from .machine_logic import MachineLogic
+from .actions import CHOOSE
 from .actions import is_builtin as is_builtin_action
+from .actions import resolve_builtin as resolve_builtin_action
 from .models import (
+    ActionDefinition,
+    GuardDefinition,
     MachineNode,
     StateNode,
     is_spawn_action,
@@ -219,6 +223,14 @@ class LogicLoader:
         # `spawn_` always raised `ImplementationMissingError` unless the caller
         # bypassed discovery with an explicit `logic=`. The service key is the
         # action type minus its `spawn_` / `spawn_blocking_` prefix.
+        # 🔀 The branches of a `choose` action reference actions and guards
+        #    too; they were never collected, so they were neither bound nor
+        #    reported missing and failed on first use.
+        for action_def in list(all_actions):
+            all_actions.extend(
+                LogicLoader._collect_choose_branches(action_def, guards)
+            )
+
         for action_def in all_actions:
             action_type = action_def.type
             if is_spawn_action(action_type):
@@ -254,6 +266,45 @@ class LogicLoader:
             LogicLoader._extract_logic_from_node(
                 child_node, actions, guards, services, optional_actions
             )
+
+    @staticmethod
+    def _collect_choose_branches(
+        action_def: ActionDefinition, guards: Set[str]
+    ) -> List[ActionDefinition]:
+        """Returns the actions inside a `choose` action's branches (nested
+        `choose` included) and collects the guards the branches name.
+
+        Args:
+            action_def (ActionDefinition): Any action of the machine.
+            guards (Set[str]): Accumulator for required guard names.
+
+        Returns:
+            List[ActionDefinition]: The branch actions; empty unless
+            `action_def` is a `choose` action.
+        """
+        params = action_def.params
+        if resolve_builtin_action(action_def.type) != CHOOSE or not isinstance(
+            params, dict
+        ):
+            return []
+        found: List[ActionDefinition] = []
+        conditions = params.get("conditions", [])
+        for branch in conditions if isinstance(conditions, list) else []:
+            if not isinstance(branch, dict):
+                continue
+            guard_cfg = branch.get("guard", branch.get("cond"))
+            if guard_cfg is not None:
+                LogicLoader._collect_guard_names(
+                    GuardDefinition(guard_cfg), guards
+                )
+            chosen = branch.get("actions", [])
+            for item in chosen if isinstance(chosen, list) else [chosen]:
+                nested = ActionDefinition(item)
+                found.append(nested)
+                found.extend(
+                    LogicLoader._collect_choose_branches(nested, guards)
+                )
+        return found
 
     @staticmethod
     def _collect_guard_names(guard_def: Any, guards: Set[str]) -> None:
